@@ -9,6 +9,7 @@ ASSUMPTIONS = {
     "A-async": "no asynchronous exception (KeyboardInterrupt between bytecodes, MemoryError) is modelled",
     "A-posix": "Linux/posix, CPython 3.12: branches on sys.platform == 'win32' / os.name != 'posix' are pruned",
     "A-kernel": "a worker's sentinel becomes readable iff the process is gone; pipe EOF iff all writers are gone; <=512-byte pipe writes are atomic",
+    "A-env": "the kernel's cgroup files are well-formed (cpu.max has two tokens; quota/period are 'max' or integers) and LOKY_MAX_CPU_COUNT, when set, parses as an integer (otherwise cpu_count raises ValueError, as int() does)",
     "A-alias": "the manager thread's tables (processes, pending, running, management lock) are the very objects of the executor its weak reference points to (set once in _ExecutorManagerThread.__init__)",
     "A-pids": "keys of the process table are the pids of started, un-reaped children; the OS gives no new child the pid of an un-reaped one",
     "A-psutil": "psutil's memory probe of the worker's own pid does not raise",
@@ -34,7 +35,7 @@ PROPS["C17"] = dict(
            "each helper against its own term of the formula; callers checked against callee contracts.",
     not_covered="float rounding of quota/period outside os_cpu_count*period < 2**52 (A-float); the probe's subprocess output "
                 "parsing beyond 'returns an int >= 0 or raises'; Windows / macOS branches (A-posix).",
-    assumptions=["A-float", "A-warn", "A-posix"],
+    assumptions=["A-float", "A-warn", "A-posix", "A-env"],
     abstractions=COMMON_ABS,
 )
 
@@ -44,4 +45,138 @@ PROPS["C19"] = dict(
     not_covered="",
     assumptions=["A-posix"],
     abstractions=COMMON_ABS,
+)
+
+
+# ----------------------------------------------------------------------
+# structural obligations: syntactic scans of the *current* source
+import ast as _ast
+import os as _os
+
+
+def _scan(repo, rel):
+    with open(_os.path.join(repo, rel), encoding="utf-8") as fh:
+        return _ast.parse(fh.read())
+
+
+def _ob(name, ok, detail, function=""):
+    return {"name": name, "status": "unsat" if ok else "sat", "backend": "ast-scan", "secs": 0.0, "kind": "structural",
+            "function": function, "path": [detail], "model": detail}
+
+
+def scan_depth_assignments(repo, tier, seed):
+    """C19: nothing but _process_worker assigns the module global _CURRENT_DEPTH."""
+    tree = _scan(repo, "loky/process_executor.py")
+    writers = []
+    for fn in [n for n in _ast.walk(tree) if isinstance(n, _ast.FunctionDef)]:
+        declares = any(isinstance(s, _ast.Global) and "_CURRENT_DEPTH" in s.names for s in _ast.walk(fn))
+        if not declares:
+            continue
+        for n in _ast.walk(fn):
+            tg = []
+            if isinstance(n, _ast.Assign):
+                tg = n.targets
+            elif isinstance(n, (_ast.AugAssign, _ast.AnnAssign)):
+                tg = [n.target]
+            for t in tg:
+                if isinstance(t, _ast.Name) and t.id == "_CURRENT_DEPTH":
+                    writers.append(fn.name)
+    tops = [n for n in tree.body if isinstance(n, _ast.Assign) and any(isinstance(t, _ast.Name) and t.id == "_CURRENT_DEPTH" for t in n.targets)]
+    root_zero = len(tops) == 1 and isinstance(tops[0].value, _ast.Constant) and tops[0].value.value == 0
+    out = [_ob("loky.process_executor:<module>:structural/only-the-worker-installs-the-depth", sorted(set(writers)) == ["_process_worker"],
+               f"functions assigning _CURRENT_DEPTH: {sorted(set(writers))}"),
+           _ob("loky.process_executor:<module>:structural/root-depth-is-zero", root_zero, "module-level `_CURRENT_DEPTH = 0`")]
+    md = [n for n in tree.body if isinstance(n, _ast.Assign) and any(isinstance(t, _ast.Name) and t.id == "MAX_DEPTH" for t in n.targets)]
+    ok = len(md) == 1 and _ast.unparse(md[0].value).replace('"', "'") == "int(os.environ.get('LOKY_MAX_DEPTH', 10))"
+    out.append(_ob("loky.process_executor:<module>:structural/max-depth-from-environment", ok, _ast.unparse(md[0].value) if md else "missing"))
+    return out
+
+
+def scan_worker_spawn_sites(repo, tier, seed):
+    """C18/C19: _adjust_process_count is the only place where a worker process is created."""
+    sites = []
+    for rel in ("loky/process_executor.py", "loky/reusable_executor.py"):
+        tree = _scan(repo, rel)
+        for fn in [n for n in _ast.walk(tree) if isinstance(n, _ast.FunctionDef)]:
+            for n in _ast.walk(fn):
+                if isinstance(n, _ast.Call):
+                    for kw in n.keywords:
+                        if kw.arg == "target" and isinstance(kw.value, _ast.Name) and kw.value.id == "_process_worker":
+                            sites.append(f"{rel}:{fn.name}")
+                    if isinstance(n.func, _ast.Name) and n.func.id == "_process_worker":
+                        sites.append(f"{rel}:{fn.name}(direct call)")
+    ok = sorted(set(sites)) == ["loky/process_executor.py:_adjust_process_count"]
+    return [_ob("loky.process_executor:<module>:structural/single-worker-spawn-site", ok, f"sites creating workers: {sorted(set(sites))}")]
+
+
+EXEC_ABS = COMMON_ABS + ["one manager-thread method is treated as atomic w.r.t. the executor's tables (A-atomic)"]
+
+PROPS["C19"] = dict(
+    proved="_check_max_depth accepts iff not(fork and d>0) and (MAX_DEPTH<=0 or d<MAX_DEPTH) for all integers d, MAX_DEPTH and every start method, raises "
+           "LokyRecursionError otherwise and changes nothing; the constructor checks the depth before creating any lock/pipe/queue and never spawns; every "
+           "spawn ships _CURRENT_DEPTH+1 (single spawn site, structural scan); the worker runs every piece of user code with the shipped depth installed; "
+           "only the worker assigns the depth and the root starts at 0 (structural scans). Induction over the tree: depth == nesting level.",
+    not_covered="the 'fork' branch is proved as written (the start-method name is an arbitrary string); the kernel/interpreter actually passing the argument tuple.",
+    assumptions=["A-posix", "A-user"],
+    abstractions=COMMON_ABS,
+    extra=[scan_depth_assignments, scan_worker_spawn_sites],
+)
+
+PROPS["C02"] = dict(
+    proved="sequential step contracts of the manager: the wait set contains the result reader, the wake-up reader and every registered worker's sentinel; every "
+           "outcome of wait()/recv() is classified as the property says (dead worker => TerminatedWorkerError, a BrokenProcessPool, with the exit codes); "
+           "terminate_broken flags first, fails every pending future with that very error, fabricates no result, kills and reaps every worker tree and joins the "
+           "internals; run() leaves its loop on `broken` only through terminate_broken; submit re-raises the stored error before touching anything.",
+    not_covered="that a death at every instant of a worker's life surfaces as 'sentinel ready, no result, no wake-up' (A-kernel, schedules); interleavings with "
+                "the feeder and user threads (A-atomic); futures already resolved are untouched only in the sense that no set_result/other set_exception occurs.",
+    assumptions=["A-atomic", "A-kernel", "A-alias", "A-pids", "A-posix"],
+    abstractions=EXEC_ABS,
+)
+PROPS["C04"] = dict(
+    proved="for every exception class a task can raise (any BaseException subclass, user classes included) the worker sends exactly one _ResultItem carrying the "
+           "task's own id and the wrapped exception and keeps looping; _sendback_result falls back to the pickling error; the feeder's error path fails only the "
+           "own future (RuntimeError iff struct.error else PicklingError, remote traceback as cause), forgets the id, frees the slot, wakes the manager and touches no "
+           "flag; process_result_item resolves only the own future and never breaks the pool; the exception round-trips through __reduce__/_rebuild_exc.",
+    not_covered="interleavings of the feeder thread with dispatch/completion (A-atomic); what pickle does with the reducers (T-stdlib).",
+    assumptions=["A-atomic", "A-user", "A-async", "A-psutil", "A-alias", "A-pids"],
+    abstractions=EXEC_ABS,
+)
+PROPS["C05"] = dict(
+    proved="run() returns only after terminate_broken or when is_shutting_down() held and nothing was pending, after join_executor_internals; without kill_workers "
+           "flag_executor_shutting_down touches no future and no worker; is_shutting_down is exactly the stated formula on the values read; shutdown_workers posts "
+           "at most one sentinel per registered worker (all of them unless no child is alive), releases every exit lock and never calls a blocking put; "
+           "join_executor_internals closes call queue, feeder, result queue and wake-up pipe in that order and joins every worker; shutdown flags -> wakes (under the "
+           "lock) -> joins when asked; submit after shutdown raises ShutdownExecutorError with nothing touched.",
+    not_covered="that results in flight are delivered before the manager leaves; sentinel/time-out races; termination of the sentinel loop; atexit ordering.",
+    assumptions=["A-atomic", "A-alias", "A-pids", "A-posix"],
+    abstractions=EXEC_ABS,
+)
+PROPS["C06"] = dict(
+    proved="with kill_workers read true every pending future gets a ShutdownExecutorError, the pending map is emptied, no result is fabricated, every registered "
+           "worker tree is killed and reaped; shutdown() forwards the caller's kill_workers flag before waking the manager.",
+    not_covered="wall-clock bound; results already in the pipe; grandchildren spawned between listing and killing; the kill-tree helpers' own bodies are "
+                "assumed contracts until utils.py is under contract.",
+    assumptions=["A-atomic", "A-alias", "A-posix"],
+    abstractions=EXEC_ABS,
+)
+PROPS["C07"] = dict(
+    proved="a worker leaves on time-out only after taking (and releasing) the management lock, never with a call item in hand, always announces its pid before "
+           "waiting for its exit lock; a pid message is never 'broken', pops the worker under the management lock, releases its exit lock once, joins it, touches no "
+           "future and re-fills the pool (under the lock, with a warning) when work is pending; every submit tops the pool up.",
+    not_covered="the race 'sentinel readable before the pid message is read'; expiry racing with dispatch (schedules, A-kernel).",
+    assumptions=["A-atomic", "A-alias", "A-pids", "A-user", "A-async", "A-psutil"],
+    abstractions=EXEC_ABS,
+)
+PROPS["C08"] = dict(
+    proved="_adjust_process_count never registers more than max(len before, max_workers) workers, fills up to max_workers, keeps every existing worker and starts "
+           "each new one; it is reached under the management lock from submit and from the respawn arm; max_workers<=0 is rejected, None means cpu_count(); the call "
+           "queue holds 2*max_workers+1 items; every submit tops the pool up.",
+    not_covered="the number of task bodies executing concurrently and that max_workers of them do run (scheduler, workers); the _resize call site holds the "
+                "submit/resize lock instead of the management lock (as the code does).",
+    assumptions=["A-atomic", "A-pids", "A-alias", "A-posix"],
+    abstractions=EXEC_ABS,
+)
+PROPS["C18"] = dict(
+    claimed=False,
+    proved="", not_covered="", assumptions=[], abstractions=EXEC_ABS, extra=[scan_worker_spawn_sites],
 )
